@@ -72,6 +72,13 @@ func fill(cfg vlib.Cfg, sp *caseSpec) {
 		sp.Repeat = 1
 	}
 	sp.StdErr = r.Bool()
+	// reporting configuration: {stderr on/off} x {channel set / never / set later}
+	if sp.RepCfg == "" {
+		sp.RepCfg = vlib.Pick(r, "chan", "chan", "none", "late")
+		if sp.SecondKind != "" || sp.Mgmt == "passes" {
+			sp.RepCfg = "chan"
+		}
+	}
 	// Delay at modules.task.defer: without it a task that finishes at once can overtake
 	// its watcher goroutine, which then stalls the task queue for maxExecutionWait
 	// (1 min; a task-scheduling defect outside this property). Thorough keeps some
@@ -132,7 +139,7 @@ func genCases(cfg vlib.Cfg) []caseSpec {
 		cases = append(cases, sp)
 	}
 	kinds := allKinds()
-	rounds := cfg.N(1, 12)
+	rounds := cfg.N(1, 10)
 	rr := vlib.NewRand(cfg.Seed, "C06/plan", 0)
 	for round := 0; round < rounds; round++ {
 		for _, k := range kinds {
@@ -173,6 +180,15 @@ func genCases(cfg vlib.Cfg) []caseSpec {
 		}
 		add(caseSpec{Kind: a, Value: vlib.Pick(rr, coreValues...), SecondKind: b, SecondValue: vlib.Pick(rr, coreValues...), Build: vlib.Pick(rr, "plain", "race")})
 	}
+	// a service worker panics under module management
+	for i := 0; i < cfg.N(6, 60); i++ {
+		add(caseSpec{Kind: "serviceworker", Value: vlib.Pick(rr, append(coreValues, extraValues...)...), Build: vlib.Pick(rr, "plain", "race"),
+			Mgmt: "flap", Repeat: vlib.Pick(rr, 1, 1, 2)})
+	}
+	for i := 0; i < cfg.N(4, 40); i++ {
+		add(caseSpec{Kind: "serviceworker", Value: vlib.Pick(rr, coreValues...), Build: vlib.Pick(rr, "plain", "race"),
+			Mgmt: "passes", Repeat: vlib.Pick(rr, 150, 300, 600)})
+	}
 	// the item panics while the module is being stopped
 	for _, k := range workKinds {
 		for i := 0; i < cfg.N(2, 20); i++ {
@@ -188,7 +204,7 @@ func genCases(cfg vlib.Cfg) []caseSpec {
 }
 
 func caseSig(sp caseSpec) string {
-	return fmt.Sprintf("%v%v%v|%s|%s|%d|%s/%s|b=%s|a=%s|sib=%d %v|%s %v %v", sp.AtStop, sp.Linger, sp.StartItems, sp.Kind, sp.Value, sp.Repeat, sp.SecondKind, sp.SecondValue,
+	return fmt.Sprintf("%s%s|%v%v%v|%s|%s|%d|%s/%s|b=%s|a=%s|sib=%d %v|%s %v %v", sp.RepCfg, sp.Mgmt, sp.AtStop, sp.Linger, sp.StartItems, sp.Kind, sp.Value, sp.Repeat, sp.SecondKind, sp.SecondValue,
 		strings.Join(sp.Before, ","), strings.Join(sp.After, ","), sp.Siblings, sp.Delays, sp.Method, sp.DevMode, sp.Late)
 }
 
@@ -310,6 +326,12 @@ func orchestrate() {
 		if sp.AtStop {
 			rep.Count("cases_panic_while_stopping", 1)
 		}
+		std := "stderr-off"
+		if sp.StdErr {
+			std = "stderr-on"
+		}
+		rep.Seen("reporting_configs", std+"/channel-"+sp.RepCfg)
+		rep.Count("cases_"+std+"_channel-"+sp.RepCfg, 1)
 		if len(sp.StartItems) > 0 {
 			rep.Count("cases_start_panic_with_items_then_retry_and_stop", 1)
 		}
@@ -437,7 +459,8 @@ func markExecuted(m map[string]map[string]bool, sp caseSpec) {
 	for _, cls := range []struct {
 		on  bool
 		sfx string
-	}{{len(sp.StartItems) > 0, "+items"}, {sp.Linger, "+linger"}} {
+	}{{len(sp.StartItems) > 0, "+items"}, {sp.Linger, "+linger"}, {sp.Mgmt != "", "+mgmt-" + sp.Mgmt},
+		{!sp.StdErr && sp.RepCfg != "chan" && sp.RepCfg != "", "/quiet"}} {
 		if cls.on {
 			if m[sp.Kind+cls.sfx] == nil {
 				m[sp.Kind+cls.sfx] = map[string]bool{}
